@@ -15,7 +15,7 @@ import (
 )
 
 type apFault struct {
-	Kind string // "" | open | close | read | seek | stat
+	Kind string // "" | open | close | read | seek | stat | noseek (EVERY rewind fails: a source that cannot seek)
 	K    int    // read: the K-th Read call of the cell fails; seek: the K-th rewind fails
 }
 
@@ -113,7 +113,7 @@ func (a *apFile) Seek(off int64, whence int) (int64, error) {
 	if off == 0 && whence == io.SeekStart {
 		a.fs.mu.Lock()
 		a.fs.st.Rewinds++
-		fail := a.fs.plan.Kind == "seek" && a.fs.st.Rewinds == a.fs.plan.K
+		fail := (a.fs.plan.Kind == "seek" && a.fs.st.Rewinds == a.fs.plan.K) || a.fs.plan.Kind == "noseek"
 		if fail {
 			a.fs.st.Faults++
 		}
